@@ -81,6 +81,8 @@ func c05Ops(spec c05PoolSpec) []c05Op {
 		for _, a := range []string{"dust1", "10pct"} {
 			ops = append(ops, c05Op{Name: fmt.Sprintf("join_single(asset%d,%s)", i, a), Kind: "join_single", Arg: a, Idx: i})
 		}
+		// the same deposit ASKING for far more shares than it is worth (the whole current supply)
+		ops = append(ops, c05Op{Name: fmt.Sprintf("join_single(asset%d,dust1,asking_whole_supply)", i), Kind: "join_single", Arg: "dust1+ask", Idx: i})
 	}
 	// coin LISTS that the message's stateless validation admits although they are not a valid coin set
 	// (validation looks at each coin alone): one denom twice, the pair in reverse order, a triple
@@ -366,7 +368,11 @@ func (r *c05Run) apply(ctx sdk.Context, s *c05State, op c05Op, path []string) {
 		if op.Arg == "10pct" {
 			a = pre.res[op.Idx].QuoRaw(10).AddRaw(1)
 		}
-		err = r.deliver(ctx, &ammtypes.MsgJoinPool{Sender: actor, PoolId: r.poolId, MaxAmountsIn: sdk.NewCoins(sdk.NewCoin(pre.denoms[op.Idx], a)), ShareAmountOut: sdkmath.NewInt(1)})
+		ask := sdkmath.NewInt(1)
+		if op.Arg == "dust1+ask" {
+			ask = pre.shares
+		}
+		err = r.deliver(ctx, &ammtypes.MsgJoinPool{Sender: actor, PoolId: r.poolId, MaxAmountsIn: sdk.NewCoins(sdk.NewCoin(pre.denoms[op.Idx], a)), ShareAmountOut: ask})
 		judged, minted = err == nil, true
 		s.onlyAllAsset = false
 	case "exit_all", "exit_single":
